@@ -6,6 +6,7 @@ import (
 	"encoding/json"
 	"fmt"
 	"math/rand/v2"
+	"sort"
 	"strings"
 	"time"
 
@@ -24,9 +25,9 @@ type LogPlan struct {
 	Producers     [][]LogOp `json:"producers"`
 	Ctrl          []CtrlOp  `json:"ctrl,omitempty"`
 	Sched         bool      `json:"sched,omitempty"`
-	Trigger       int       `json:"trigger"`         // sleepLadder index between TriggerWriter calls; -1 never
-	SlowAdapter   int       `json:"slow_adapter"`    // sleepLadder index, 0 = instant
-	ShutdownAfter int       `json:"shutdown_after"`  // -1: after all producers finished; else sleepLadder index
+	Trigger       int       `json:"trigger"`             // sleepLadder index between TriggerWriter calls; -1 never
+	SlowAdapter   int       `json:"slow_adapter"`        // sleepLadder index, 0 = instant
+	ShutdownAfter int       `json:"shutdown_after"`      // -1: after all producers finished; else sleepLadder index
 	Shutdown2     bool      `json:"shutdown2,omitempty"` // a second goroutine calls Shutdown at the same time
 	PreStart      int       `json:"pre_start,omitempty"`
 	InitLevel     int       `json:"init_level"`
@@ -34,12 +35,13 @@ type LogPlan struct {
 
 // LogOp is one producer operation.
 type LogOp struct {
-	Kind string `json:"k"` // log | burst | tracer | sleep
-	Sev  int    `json:"sev,omitempty"`
-	Pkg  int    `json:"pkg,omitempty"`
-	N    int    `json:"n,omitempty"`
-	Arg  int    `json:"arg,omitempty"`
-	Dup  bool   `json:"dup,omitempty"` // tracer: the submission is made twice in a row with the same final line (and different collected lines)
+	Kind   string `json:"k"` // log | burst | tracer | sleep
+	Sev    int    `json:"sev,omitempty"`
+	Pkg    int    `json:"pkg,omitempty"`
+	N      int    `json:"n,omitempty"`
+	Arg    int    `json:"arg,omitempty"`
+	Dup    bool   `json:"dup,omitempty"`    // tracer: the submission is made twice in a row with the same final line (and different collected lines)
+	Shared bool   `json:"shared,omitempty"` // tracer: the lines are collected by several goroutines that share the tracer (a request handler and its helpers)
 }
 
 // CtrlOp is one operation of the control goroutine.
@@ -79,6 +81,7 @@ func (H) Generate(prop string, rng *rand.Rand, tier string) any {
 				op.Kind = "tracer"
 				op.N = 1 + rng.IntN(5)
 				op.Dup = rng.IntN(3) == 0
+				op.Shared = rng.IntN(3) == 0
 			default:
 				op.Kind = "sleep"
 				op.Arg = rng.IntN(len(sleepLadder))
@@ -182,6 +185,7 @@ type callRec struct {
 	Inv, Ret uint64
 	Returned bool
 	Tracer   []string // for tracer submissions: the lines collected before the main line
+	AnyOrder bool     // ... by several goroutines: their relative order is open
 	IsSubmit bool
 }
 
@@ -194,14 +198,14 @@ type outRec struct {
 }
 
 type state struct {
-	p      *LogPlan
-	rc     *simkit.RunCtx
-	calls  []*callRec
-	ctrl   []ctrlRec
-	init   levelState
-	out    []outRec
+	p                          *LogPlan
+	rc                         *simkit.RunCtx
+	calls                      []*callRec
+	ctrl                       []ctrlRec
+	init                       levelState
+	out                        []outRec
 	startRet, shutInv, shutRet uint64
-	shutReturned bool
+	shutReturned               bool
 }
 
 func logAt(pkg, sev int, msg string) {
@@ -313,13 +317,31 @@ func (H) Execute(prop string, plan any, rc *simkit.RunCtx) {
 							rc.Probe("tracer-submitted-twice-in-a-row")
 						}
 						var lines []string
-						for k := 0; k < op.N-1+round; k++ {
-							l := fmt.Sprintf("%s-t%d.%d", payload, round, k)
-							lines = append(lines, l)
-							pkga.TLog(tr, 1+k%6, l)
+						if op.Shared && op.N-1+round >= 2 {
+							helpers := make(chan struct{}, op.N+1)
+							for k := 0; k < op.N-1+round; k++ {
+								l := fmt.Sprintf("%s-t%d.%d", payload, round, k)
+								lines = append(lines, l)
+								sev, tr := 1+k%6, tr
+								go func() {
+									defer func() { helpers <- struct{}{} }()
+									pkga.TLog(tr, sev, l)
+								}()
+							}
+							for k := 0; k < op.N-1+round; k++ {
+								<-helpers
+							}
+							sort.Strings(lines)
+							rc.Probe("tracer-shared-by-goroutines")
+						} else {
+							for k := 0; k < op.N-1+round; k++ {
+								l := fmt.Sprintf("%s-t%d.%d", payload, round, k)
+								lines = append(lines, l)
+								pkga.TLog(tr, 1+k%6, l)
+							}
 						}
 						pkga.TLog(tr, op.Sev, payload)
-						c := &callRec{Prod: pi, Op: oi, Payload: payload, Sev: op.Sev, Pkg: op.Pkg, Inv: simrt.Seq(), Tracer: lines, IsSubmit: true}
+						c := &callRec{Prod: pi, Op: oi, Payload: payload, Sev: op.Sev, Pkg: op.Pkg, Inv: simrt.Seq(), Tracer: lines, IsSubmit: true, AnyOrder: op.Shared}
 						if lines == nil {
 							c.Tracer = []string{}
 						}
@@ -579,7 +601,12 @@ func (H) Check(prop string, plan any, rc *simkit.RunCtx) {
 		// matched yet and carries exactly these lines
 		matched := false
 		for _, c := range cs {
-			if !usedSubmit[c] && o.Tracer != nil && strings.Join(o.Tracer, "|") == strings.Join(c.Tracer, "|") {
+			got := o.Tracer
+			if c.AnyOrder {
+				got = append([]string(nil), got...)
+				sort.Strings(got)
+			}
+			if !usedSubmit[c] && o.Tracer != nil && strings.Join(got, "|") == strings.Join(c.Tracer, "|") {
 				usedSubmit[c] = true
 				matched = true
 				break
